@@ -73,6 +73,7 @@ type KnownFinding struct {
 	Commit    string `json:"commit,omitempty"`
 	What      string `json:"what"`
 	Corpus    string `json:"corpus,omitempty"`
+	Scope     string `json:"scope,omitempty"` // "corpus": only the corpus reproduction is excused
 }
 
 // ShardStats is written by each test process and merged by the driver.
@@ -155,7 +156,9 @@ func LoadEnv(id string) *Env {
 		}
 		if err := json.Unmarshal(b, &doc); err == nil {
 			for _, f := range doc.Findings {
-				if f.Property == id && f.Status == "known" {
+				// scope "corpus": a region the generator avoids by construction; its signature only excuses the
+				// corpus reproduction, never a violation met by the random search
+				if f.Property == id && f.Status == "known" && !(f.Scope == "corpus" && e.Mode == "search") {
 					e.Known[f.Signature] = f
 				}
 			}
